@@ -264,7 +264,7 @@ def run_pp_case(case):
                 try:
                     r['future'] = dl.download_file(
                         BUCKET, r['key'], r['path'],
-                        extra_args=dict(d.get('extra') or {}),
+                        extra_args=(d.get('extra') or {}),
                         expected_size=(d['size'] if d.get('expected_size')
                                        else None))
                 except SchedAbort:
